@@ -37,10 +37,8 @@ namespace celma { namespace log { namespace detail {
 ///    1.15.0, 11.10.2018
 ScopedAttribute::ScopedAttribute( const std::string& name,
    const std::string& value):
-      mAttributeName( name)
+      mAttributeId( Logging::instance().addAttribute( name, value))
 {
-
-   Logging::instance().addAttribute( name, value);
 } // ScopedAttribute::ScopedAttribute
 
 
@@ -51,7 +49,7 @@ ScopedAttribute::ScopedAttribute( const std::string& name,
 ScopedAttribute::~ScopedAttribute()
 {
 
-   Logging::instance().removeAttribute( mAttributeName);
+   Logging::instance().removeAttributeById( mAttributeId);
 
 } // ScopedAttribute::~ScopedAttribute
 
